@@ -11,13 +11,14 @@ import vlib
 META = {
     "technique": "TLC exhaustive + liveness on spec/pruner/Pruner.tla (transcription of pruner.Service: "
                  "lastPruned/tail clamp, retryFailed, findPruneableHeaders, batch loop, pruneOnHeaderDelete, "
-                 "Stop/Start, ResetCheckpoint) and behaviour replay (B2) of TLC-generated behaviours into the real "
+                 "Stop/Start, Stop during the retry pass, ResetCheckpoint, header-store read failures) and behaviour replay (B2) of TLC-generated behaviours into the real "
                  "pruner.Service with property monitors on the observed Prune calls / checkpoints; store effect on a "
-                 "real store.Store through full.ShareAvailability.Prune",
+                 "real store.Store through full.ShareAvailability.Prune; light.ShareAvailability.Prune (real sampling through "
+                 "the real bitswap.Getter into a blockstore) under DeleteBlock failures at every position, retried until nil",
     "level_text": "Every behaviour of the model over all non-decreasing chains of <= 4 (quick) / 5 (thorough) headers, "
-                  "windows, block-time estimates, batch caps 2..3, every pattern of Prune failures, restarts, header "
+                  "windows, block-time estimates, batch caps 2..3, every pattern of Prune failures, bounded header-store read failures, restarts, Stop in the retry pass, header "
                   "deletions interleaved at the lock boundaries and the archival->pruned conversion satisfies "
-                  "NeverInsideWindow, CheckpointMonotone, ArchivalKeepsODS, AllOldPruned (safety form at every cycle "
+                  "NeverInsideWindow, CheckpointMonotone, FailedKept, ArchivalKeepsODS, AllOldPruned (safety form at every cycle "
                   "end, and as leads-to under fairness) and CycleTerminates; several hundred (thousands: thorough) "
                   "longer behaviours (6 headers) are replayed step by step into the real Service, which must follow "
                   "the model exactly (calls, checkpoint in memory and in the datastore) while monitors check the "
@@ -153,7 +154,8 @@ def run(ctx):
     # vacuity: the replay must have exercised what the property talks about
     need = {"behaviours_replayed": 50 if quick else 500, "cycles": 100, "prune_calls": 100, "restarts": 10,
             "header_deletions": 10, "resets": 3, "old_blocks_checked": 20, "store_effect_modes": 3,
-            "store_effect_checks": 10}
+            "store_effect_checks": 10, "read_failures_injected": 30, "stops_during_retry": 3,
+            "light_prune_scripts": 10, "light_delete_failures": 10, "light_service_runs": 1}
     for k, n in need.items():
         if c.get(k, 0) < n:
             ctx.inconclusive("vacuity: driver counter %s = %s (< %d)" % (k, c.get(k, 0), n))
